@@ -130,6 +130,8 @@ def analyse_parser(p, bc, name, seen=()):
                     unknown.append(n)
             elif isinstance(f, ast.Name) and f.id in BUILTIN_H:
                 pass
+            elif isinstance(f, ast.Name) and any(isinstance(x, FuncT) and x.name == f.id and x is not fn for x in ast.walk(fn)):
+                pass   # a local function of the parser: its body is part of this walk
             else:
                 unknown.append(n)
     return raises, unknown
